@@ -18,10 +18,13 @@ class RemainingOperationsObserver(FeatureObserver):
     _supported_feature_types = [FeatureType.MACHINES, FeatureType.JOBS]
 
     def initialize_features(self):
-        unscheduled_ops_observer = self.dispatcher.create_or_get_observer(
-            UnscheduledOperationsObserver
-        )
-        for operation in unscheduled_ops_observer.unscheduled_operations:
+        # Kept so that the unscheduled operations observer is subscribed, as
+        # before.
+        self.dispatcher.create_or_get_observer(UnscheduledOperationsObserver)
+        # The counts are read from the dispatcher, which is reset before its
+        # subscribers; another observer may still hold the previous episode's
+        # state when this method is called from ``reset``.
+        for operation in self.dispatcher.unscheduled_operations():
             if FeatureType.JOBS in self.features:
                 self.features[FeatureType.JOBS][operation.job_id, 0] += 1
             if FeatureType.MACHINES in self.features:
